@@ -21,6 +21,7 @@ enum Kind
     K_HOST_ICV,
     K_DELETE_OBJECT,
     K_MERKLE_XCHECK, // bulk cross-backend agreement of the tree builders on one large input (plain flavour, thorough C08)
+    K_COPY_BIG, // parcpy / parSetZero over >= 2^20 elements of mmap'ed caller memory (private or shared mapping), plain flavour, thorough C17
     K_NKINDS
 };
 const char *kind_name(int k);
@@ -86,6 +87,7 @@ struct Op
     int host_team = 0;            // > 1: the call is made by every member of an application parallel region of that size, each on its own buffers (MERKLE, PARCPY, PARSETZERO)
     bool main_first = false; // simulated execution before the one-member reference (cold-start runs)
     uint64_t garbage_seed = 0;
+    bool big_zero = false, big_shared = false; // K_COPY_BIG: parSetZero instead of parcpy; caller memory is a MAP_SHARED mapping
     std::vector<sim::Switch> schedule; // explicit (ST_REPLAY)
     std::vector<sim::Switch> schedule2; // explicit decisions of the op's second simulated execution (transform called from an application region)
 
